@@ -926,8 +926,8 @@ class Pregex():
             if self.__pattern.startswith('(?:'):
                 # non-capturing group.
                 pattern = self.__pattern.replace('?:', '', 1)
-            elif _re.match('\(\?[i].+', self.__pattern):
-                # non-capturing group with flag.
+            elif _re.match(r'\(\?(?!P<)', self.__pattern):
+                # non-capturing group with flags.
                 pattern = f'({str(self)})'
             else:
                 # capturing group.
